@@ -195,7 +195,9 @@ def h_watch(g0: int, g1: int, g2: int, f0: int, f1: int, f2: int, a0: int, a1: i
     """
     vkopf.begin_path()
     c = vkopf.cell()
-    f0, f1 = vkopf.pin('f0', f0), vkopf.pin('f1', f1)
+    f0, f1, a0, a1 = vkopf.pin('f0', f0), vkopf.pin('f1', f1), vkopf.pin('a0', a0), vkopf.pin('a1', a1)
+    if c.get('inactivity') is not None:
+        inactivity = c['inactivity']        # (cells without the inactivity timer as a symbolic dimension)
     nf = c.get('faults', 2)
     faults = [None if f == 7 else f for f in [f0, f1, f2][:nf]]
     if not c.get('pause', False):
@@ -433,17 +435,30 @@ def h_orchestrator(g1: int, g2: int, linger: int, r2a: bool, r2b: bool, r2c: boo
 
 def obligations():
     none = 7
-    obs = split(Ob('h_watch', {'faults': 2, 'changes': 2}, timeout=3000, path_timeout=300, twins=['raised', 'relisted']),
-                f0=list(range(8)), f1=[none, 0, 3])
-    obs += split(Ob('h_watch', {'faults': 1, 'changes': 2, 'pause': True}, timeout=3000, path_timeout=300, twins=['paused']),
-                 f0=[none, 0, 1, 3])
-    obs += split(Ob('h_watch', {'faults': 2, 'changes': 3, 'compaction': True}, timeout=3400, path_timeout=300, tiers=('thorough',)),
-                 f0=list(range(8)), f1=list(range(8)))
-    obs += split(Ob('h_watch', {'faults': 2, 'changes': 2, 'pause': True}, timeout=3400, path_timeout=300, tiers=('thorough',)),
-                 f0=list(range(8)), f1=list(range(8)))
-    obs += split(Ob('h_adjust', {}, timeout=2400, twins=['changed']), n=[1, 2])
+    obs = []
+    # quick: one fault kind per cell at a pinned position, symbolic change instants; the inactivity timer is a symbolic
+    # dimension only in the fault-free cell (every extra unbounded timer multiplies the orderings)
+    for (f0, a0, f1, a1) in ((0, 1, none, 0), (1, 0, none, 0), (2, 1, 0, 1), (3, 1, none, 0), (4, 0, none, 0), (5, 1, none, 0), (6, 1, 3, 0)):
+        obs.append(Ob('h_watch', {'faults': 2, 'changes': 2, 'inactivity': 10000, 'pin': {'f0': f0, 'a0': a0, 'f1': f1, 'a1': a1}},
+                      tiers=('quick',), timeout=900, path_timeout=300))
+    obs.append(Ob('h_watch', {'faults': 1, 'changes': 2, 'pin': {'f0': none, 'a0': 0}}, tiers=('quick',), timeout=900, path_timeout=300))
+    obs.append(Ob('h_watch', {'faults': 1, 'changes': 2, 'pause': True, 'inactivity': 10000, 'pin': {'f0': none, 'a0': 0}}, tiers=('quick',),
+                  timeout=900, path_timeout=300))
+    obs.append(Ob('h_watch', {'faults': 1, 'changes': 2, 'pause': True, 'inactivity': 10000, 'pin': {'f0': 3, 'a0': 1}}, tiers=('quick',),
+                  timeout=900, path_timeout=300))
+    obs.append(Ob('h_watch', {'faults': 2, 'changes': 2, 'pause': True, 'inactivity': 10000}, tiers=('quick', 'thorough'), timeout=600,
+                  path_timeout=300, twins=['raised', 'relisted', 'paused'], main=False))
+    F = list(range(8))
+    obs += split(Ob('h_watch', {'faults': 2, 'changes': 2, 'inactivity': 10000}, timeout=1800, path_timeout=300, tiers=('thorough',)),
+                 f0=F, f1=F, a0=[0, 1, 2])
+    obs += split(Ob('h_watch', {'faults': 2, 'changes': 3, 'compaction': True, 'inactivity': 10000}, timeout=3000, path_timeout=300,
+                    tiers=('thorough',)), f0=F, f1=[none, 0, 3], a0=[0, 1, 2])
+    obs += split(Ob('h_watch', {'faults': 1, 'changes': 2, 'pause': True, 'inactivity': 10000}, timeout=3000, path_timeout=300,
+                    tiers=('thorough',)), f0=F, a0=[0, 1, 2])
+    obs += split(Ob('h_watch', {'faults': 1, 'changes': 2}, timeout=3000, path_timeout=300, tiers=('thorough',)), f0=[none, 0, 3], a0=[0, 1])
+    obs += split(Ob('h_adjust', {}, timeout=900, twins=['changed']), n=[1, 2])
     obs += split(Ob('h_adjust', {}, timeout=3400, tiers=('thorough',)), n=[3])
-    obs += split(Ob('h_orchestrator', {}, timeout=2400, path_timeout=300, twins=['revision_during_adjustment']), na=[3], nb=[2, 1], nc=[4, 6])
+    obs += split(Ob('h_orchestrator', {}, timeout=900, path_timeout=300, twins=['revision_during_adjustment']), na=[3], nb=[2, 1], nc=[4, 6])
     obs += split(Ob('h_orchestrator', {}, timeout=3000, path_timeout=300, tiers=('thorough',)), na=[1, 3, 7], nb=[1, 2, 5], nc=[2, 4, 6])
     obs.append(Ob('h_adjust', {'exclude_known': False, 'only_f10': True, 'pin': {'n': 2}}, expect='counterexample', finding='F10', timeout=600))
     return obs
